@@ -12,7 +12,7 @@ def check(pid, tier, replay):
     negatives = [("txn/Txn", "txn/Txn_race.cfg", "NoLatePost")]
     endpoint.run(pid, tier, replay, ("C18_",), models, gens,
                  "resource side: every sequence up to the depth bound over {declare, post under the 1st / 2nd transaction (1 frame, 2 frames, second link), plain post, post under an "
-                 "undeclared id, commit / rollback of either (repeated, after the control link went away), discharge of an undeclared id, control-link detach / re-attach, recv, "
+                 "undeclared id, commit / rollback of either (repeated, after the control link went away), discharge of an undeclared id, control-link detach / re-attach, recv, a delivery sent by the resource and retired by the controller under a transaction or plainly, peer end, "
                  "discharge and post written back to back} with 0-2 transactions declared beforehand; controller side: every sequence over {declare two transactions, post, commit / "
                  "rollback answered with accepted or rejected, drop}; distinct = distinct scripts",
-                 trace_spec="txn/TxnTrace", keep=lambda r: r["ev"] in KEEP, require_stats=("received", "declared", "discharge-refused", "post-refused"), negatives=negatives)
+                 trace_spec="txn/TxnTrace", keep=lambda r: r["ev"] in KEEP, require_stats=("received", "declared", "discharge-refused", "post-refused", "retired"), negatives=negatives)
